@@ -398,12 +398,35 @@ theorem interpNan_eq_cases (eps : K) (xp fp : List K) (x : K) :
   unfold interpNan
   simp only [headD_eq_getD, getLastD_eq_getD]
 
+/-- `_dot_interp` (left override `x <= xp[0]`): last node value above the last node, first node
+ value at and below the first node, the weights of the linear routine strictly in between -/
 theorem dotInterp_eq_cases (xp fp : List K) (x : K) (hl : xp.length = fp.length)
     (hn : 1 ≤ xp.length) :
     dotInterp xp fp x
       = if xp.getD (xp.length - 1) 0 < x then fp.getD (fp.length - 1) 0
-        else if x < xp.getD 0 0 then fp.getD 0 0 else linearExtrap xp fp x := by
+        else if x ≤ xp.getD 0 0 then fp.getD 0 0 else linearExtrap xp fp x := by
   unfold dotInterp dotWeights
+  simp only [headD_eq_getD, getLastD_eq_getD, not_lt]
+  have hlast : ((List.range xp.length).map fun i => (ind (decide (i + 1 = xp.length)) : K))
+      = (List.range xp.length).map fun i => (ind (decide (i = xp.length - 1)) : K) := by
+    apply List.map_congr_left
+    intro i _
+    have : (i + 1 = xp.length) ↔ (i = xp.length - 1) := by omega
+    simp only [this]
+  by_cases h1 : xp.getD (xp.length - 1) 0 < x
+  · rw [if_pos h1, if_pos h1, hlast, dot_onehot _ _ fp hl.symm (by omega), hl]
+  · rw [if_neg h1, if_neg h1]
+    by_cases h2 : x ≤ xp.getD 0 0
+    · rw [if_pos h2, if_pos h2, dot_onehot _ _ fp hl.symm (by omega)]
+    · rw [if_neg h2, if_neg h2]; rfl
+
+/-- the pre-repair `_dot_interp` (left override `x < xp[0]`) -/
+theorem dotInterpOld_eq_cases (xp fp : List K) (x : K) (hl : xp.length = fp.length)
+    (hn : 1 ≤ xp.length) :
+    dotInterpOld xp fp x
+      = if xp.getD (xp.length - 1) 0 < x then fp.getD (fp.length - 1) 0
+        else if x < xp.getD 0 0 then fp.getD 0 0 else linearExtrap xp fp x := by
+  unfold dotInterpOld dotWeightsOld
   simp only [headD_eq_getD, getLastD_eq_getD]
   have hlast : ((List.range xp.length).map fun i => (ind (decide (i + 1 = xp.length)) : K))
       = (List.range xp.length).map fun i => (ind (decide (i = xp.length - 1)) : K) := by
